@@ -167,6 +167,7 @@ class Ctx:
     def mc(self, module, cfg=None, workers=NCPU, timeout=3600, env=None, expect_complete=True, **kw):
         """Run an MC_* job; its invariants are design-level properties of the model. A violated
         invariant is reported as a machinery failure unless the caller handles it (returns res)."""
+        kw.setdefault("heap", "12g")
         res = run_tlc(module, cfg, workers=workers, timeout=timeout, env=env, **kw)
         self.states += res.distinct
         self.transitions += res.generated
@@ -213,10 +214,12 @@ class Ctx:
             e = {"TRACE_FILE": path}
             if env:
                 e.update(env)
-            r = run_tlc(module, cfg, workers=1, env=e, timeout=timeout, heap=heap)
+            # 16 JVMs run side by side: bound each heap (the JVM default is a quarter of the machine's memory each)
+            r = run_tlc(module, cfg, workers=1, env=e, timeout=timeout, heap=heap or "3g")
             if not r.completed or len(r.vj) != n:
+                tail = "\n".join(l for l in r.out.splitlines()[-30:] if not l.startswith('"VJ'))[-600:]
                 raise MachineryFailure(
-                    f"trace job {module} on {path}: completed={r.completed} verdicts={len(r.vj)}/{n}\n{r.error_text()}")
+                    f"trace job {module} on {path}: completed={r.completed} verdicts={len(r.vj)}/{n} rc={r.rc}\n{r.error_text()}\n{tail}")
             return r
 
         out = {}
